@@ -30,6 +30,10 @@ def compile_codec(prep, cfg):
     return build.compile_driver(prep.src, cfg, inc_dirs=(prep.gen["dir"],), dep_key=prep.dep, name="codec-" + prep.schema.package)
 
 
+CODEC_MAX_OUTPUT = 40 << 20
+MAX_BLOCK_LINES = 60000
+
+
 class RunResult:
     def __init__(self):
         self.blocks = {}     # id -> list of lines
@@ -46,8 +50,13 @@ def run_codec(exe, commands, timeout=600):
     while pending and guard < 50:
         guard += 1
         inp = "\n".join(c for _, c in pending) + "\n"
-        rc, o, _, to = C.run([exe], input=inp.encode(), timeout=timeout, env=build.drv_env())
+        # a driver gone astray (a cursor that no longer advances, a count read from the wrong bytes) can print without
+        # bound; 16 supervisors each holding hundreds of megabytes of lines took 50 GB in a trial with seeded change
+        # C19-5, so the capture is capped well above what a sound run prints (a few MB) and a block keeps at most
+        # MAX_BLOCK_LINES lines (the first difference is what gets reported, it lies long before that)
+        rc, o, _, to = C.run([exe], input=inp.encode(), timeout=timeout, env=build.drv_env(), max_output=CODEC_MAX_OUTPUT)
         out = o.decode(errors="replace")
+        del o
         res.ubsan += build.ubsan_reports(out)
         cur = None
         done = set()
@@ -59,7 +68,11 @@ def run_codec(exe, commands, timeout=600):
                 done.add(cur)
                 cur = None
             elif cur is not None:
-                res.blocks[cur].append(ln)
+                blk = res.blocks[cur]
+                if len(blk) < MAX_BLOCK_LINES:
+                    blk.append(ln)
+                elif len(blk) == MAX_BLOCK_LINES:
+                    blk.append("<more than %d lines dropped by the supervisor>" % MAX_BLOCK_LINES)
         res.raw_tail = out[-3000:]
         if to:
             res.deaths.append((cur or "?", "timeout", out[-1500:]))
@@ -166,8 +179,13 @@ def all_schemas(tier, seed, nrandom_quick=2, nrandom_thorough=40):
 def std_configs(tier, checked=False):
     H = ("SBEPP_ENABLE_ASSERTS_WITH_HANDLER",)
     if tier == "quick":
-        return [build.Cfg("g++", "17", "san"), build.Cfg("clang++", "11", "san"), build.Cfg("g++", "20", "plain")]
+        # the byte type of the views is a documented axis (char, unsigned char, std::byte): one of each in the quick tier
+        return [build.Cfg("g++", "17", "san"), build.Cfg("clang++", "11", "san", defs=("VRT_BYTE_KIND=1",)),
+                build.Cfg("g++", "20", "plain", defs=("VRT_BYTE_KIND=2",))]
     cfgs = [build.Cfg(cxx, std, "san") for cxx, std in build.all_compiler_std()]
+    cfgs += [build.Cfg("g++", "17", "san", defs=("VRT_BYTE_KIND=2",)), build.Cfg("clang++", "20", "san", defs=("VRT_BYTE_KIND=2",)),
+             build.Cfg("clang++", "14", "san", defs=("VRT_BYTE_KIND=1",)), build.Cfg("g++", "23", "plain", defs=("VRT_BYTE_KIND=1",)),
+             build.Cfg("clang++", "17", "plain", defs=("VRT_BYTE_KIND=2", "SBEPP_HAS_BITCAST=0"))]
     cfgs += [build.Cfg("g++", "20", "plain"), build.Cfg("clang++", "23", "plain"),
              build.Cfg("g++", "20", "san", defs=("SBEPP_HAS_BITCAST=0",)), build.Cfg("clang++", "23", "san", defs=("SBEPP_HAS_BITCAST=0",))]
     return cfgs
